@@ -151,7 +151,7 @@ func (h *Handler) handleRequest(host *packet.Host, p packet.DHCP4, options packe
 		if lease.State == StateFree || // nothing offered or leased to this client: there is no address to confirm
 			!bytes.Equal(lease.Addr.MAC, p.CHAddr()) || // invalid hardware
 			(lease.State == StateDiscover && (!bytes.Equal(lease.XID, p.XId()) || lease.IPOffer != reqIP)) || // invalid discover request
-			(lease.State == StateAllocated && lease.Addr.IP != reqIP) { // invalid request - iphone send duplicate select packets - let it pass
+			(lease.State == StateAllocated && (lease.Addr.IP != reqIP || lease.DHCPExpiry.Before(time.Now()))) { // invalid or expired - iphone send duplicate select packets - let it pass
 			Logger.Msg("request NACK - select invalid parameters").ByteArray("xid", p.XId()).ByteArray("lxid", lease.XID).IP("leaseIP", lease.Addr.IP).Write()
 			return nakPacket(p, subnet.DHCPServer.AsSlice(), clientID)
 		}
@@ -199,7 +199,8 @@ func (h *Handler) handleRequest(host *packet.Host, p packet.DHCP4, options packe
 
 		if lease.State != StateAllocated ||
 			lease.Addr.IP != reqIP || !bytes.Equal(lease.Addr.MAC, p.CHAddr()) ||
-			!subnet.LAN.Contains(lease.Addr.IP) {
+			!subnet.LAN.Contains(lease.Addr.IP) ||
+			lease.DHCPExpiry.Before(time.Now()) { // expired but not freed yet by the minute ticker
 			Logger.Msg("request NACK - rebooting").ByteArray("xid", p.XId()).IP("ip", reqIP).Write()
 
 			if h.mode == ModeSecondaryServer || (h.mode == ModeSecondaryServerNice && captured) {
